@@ -1087,7 +1087,7 @@ def print_texts(specs):
     lines = buf.getvalue().splitlines()
     if len(fmts) != len(specs) or len(lines) != len(specs):
         raise ValueError(f"{len(specs)} specs, {len(fmts)} FORMAT strings, {len(lines)} printed lines")
-    return [render_rtlil_format(f, 42).rstrip("\n") for f in fmts], lines
+    return [render_rtlil_format(f, 42).rstrip("\n") for f in fmts], lines, fmts
 
 
 def print_observation():
@@ -1095,24 +1095,20 @@ def print_observation():
     returns the specs on which they differ"""
     specs = [al + z0 + "5" for al in ("", "<", ">", "=", "x<", "x>", "x=", "0<", "0>") for z0 in ("", "0")] + \
             ["+5", "+05", "<+5", ""]
-    rt, si = print_texts(specs)
-    return [(sp, r, o) for sp, r, o in zip(specs, rt, si) if r != o]
+    rt, si, fm = print_texts(specs)
+    return [(sp, r, o, f) for sp, r, o, f in zip(specs, rt, si, fm) if r != o]
 
 
 def extra(tier, seed, findings):
-    viol = []
-    diffs = print_observation()
-    if diffs:
-        listed = any(f.get("property") == ID and f.get("id") == PRINT_ID and f.get("status") == "open" for f in findings)
-        unexpected = [x for x in diffs if not (x[0] in ("<05", ">05", "=05"))]
-        payload = {"property": ID, "kind": "input", "case": {"k": "print", "specs": [x[0] for x in diffs]},
-                   "expected_by_model": [x[1] for x in diffs], "observed": [x[2] for x in diffs],
-                   "explain": "Print(Format('[{:SPEC}]', a)), a = 42: text of the emitted $print FORMAT (expected) vs simulator"}
-        if listed and not unexpected:
-            payload["known"] = (f"{PRINT_ID}: Format specs {', '.join(repr(x[0]) for x in diffs)} print "
-                                f"{[x[2] for x in diffs]} in the simulator but the emitted $print FORMAT pads with spaces "
-                                f"({[x[1] for x in diffs]})")
-        viol.append(payload)
+    # OBSERVATION only (coordinator's decision: C04 is about values of outputs and named registers, not Print texts):
+    # recorded in the evidence and printed as a NOTE, never a violation / known finding / non-zero exit
+    try:
+        diffs = print_observation()
+    except Exception as e:
+        diffs = [("<error>", type(e).__name__, str(e)[:200], "")]
+    for sp, r, o, f in diffs:
+        print(f"NOTE: property={ID} observation (not a verdict): Print(Format('[{{:{sp}}}]', a)), a=42: simulator prints "
+              f"{o!r}, the emitted $print FORMAT {f.rstrip(chr(10))!r} reads as {r!r}")
     cases = gen_cases(tier, seed)
     comparisons = 0
     steps = 0
@@ -1126,11 +1122,12 @@ def extra(tier, seed, findings):
         steps += len(d["stim"])
     cov = {"programs": len(cases) - n_al, "disagreements_checked": comparisons, "stimulus_steps": steps,
            "assignment_list_tie_designs": n_al,
-           "print_format_specs_differing": [list(x) for x in diffs],
+           "print_format_observations": [{"spec": sp, "simulator_text": o, "format_string": f.rstrip("\n"),
+                                          "format_text_as_read": r} for sp, r, o, f in diffs],
            "rtlil_cell_histogram": dict(CELL_HIST), "rtlil_modules": MOD_COUNT[0],
            "layer": "B = per-design translation validation (vm_compute of RtlilSem.run on the emitted text); "
                     "A = the theorems of Props/C04.v"}
-    return viol, cov
+    return [], cov
 
 
 CELL_HIST = collections.Counter()
